@@ -951,7 +951,7 @@ func (c *Ctx) Select(arr, idx *Term, elem Sort) *Term {
 			arr = arr.Args[0]
 			continue
 		}
-		if baseOffsetDistinct(i, idx) {
+		if baseOffsetDistinct(i, idx) || c.linDistinct(i, idx) {
 			arr = arr.Args[0]
 			continue
 		}
@@ -1120,4 +1120,23 @@ func baseOffset(t *Term) (*Term, int64, bool) {
 		return t.Args[0], t.Args[1].Int64(), true
 	}
 	return t, 0, true
+}
+
+// linDistinct: the exact linear forms of a and b differ by a non-zero constant.
+func (c *Ctx) linDistinct(a, b *Term) bool {
+	if a.Sort.K != KInt || b.Sort.K != KInt {
+		return false
+	}
+	la := c.linear(a, 8)
+	lb := c.linear(b, 8)
+	if len(la.coef) != len(lb.coef) || len(la.coef) == 0 {
+		return false
+	}
+	for t, co := range la.coef {
+		o, ok := lb.coef[t]
+		if !ok || o.Cmp(co) != 0 {
+			return false
+		}
+	}
+	return la.k.Cmp(lb.k) != 0
 }
